@@ -37,7 +37,7 @@ theorem outcome_order_independent_partial (syms : SymbolTable) (rules rules' : L
     (hne : AllNoErr syms (run syms rules lim (factMerge [] facts)).facts blocks az) :
     authorizeOn syms rules facts blocks az lim = authorizeOn syms rules' facts' blocks az lim' := by
   have hsame : SameFacts (run syms rules lim (factMerge [] facts)).facts (run syms rules' lim' (factMerge [] facts')).facts :=
-    fun x => run_order_independent ⟨syms, facts, rules⟩ ⟨syms, facts', rules'⟩ lim lim' 10000 10000 rfl hf hr hok hok' x
+    fun x => run_order_independent ⟨syms, facts, rules⟩ ⟨syms, facts', rules'⟩ lim lim' rfl hf hr hok hok' x
   simp only [authorizeOn, hok, hok']
   exact decide_same hsame syms blocks az hne
 
